@@ -1,6 +1,7 @@
 mod tl;
 mod utl;
 mod th;
+mod qmode;
 mod rtreal;
 
 use std::collections::{BTreeMap, HashSet};
@@ -903,6 +904,25 @@ fn main() {
                     }
                 }
                 rep.engine("m_big_pool").sample(Json::from("pools of 255 ... 70000 slots: exactly max_size objects can be out at once, twice in a row, with max_size creations in all"));
+                rep.add_findings(fs);
+            }
+            // the configured route to a queue mode (serde / config crate)
+            if prop == "C08" && args.engine_enabled("m_queue_mode_names") {
+                let out = qmode::run(prop);
+                let cov = rep.engine("m_queue_mode_names");
+                cov.evaluations += out.cases;
+                cov.events += out.cases * 4;
+                for k in 0..out.cases {
+                    let _ = cov.distinct.insert(k);
+                }
+                for k in 0..out.accepted {
+                    let _ = cov.nontrivial.insert(k);
+                }
+                cov.add("spellings_accepted", out.accepted);
+                cov.add("spellings_refused", out.refused);
+                cov.add("violating_cases", out.violations.len() as u64);
+                cov.sample(Json::from("every spelling of a queue mode that serde_json or the config crate accepts selects the mode it names: the pool built from the deserialised PoolConfig offers object 0 (Fifo) / object 1 (Lifo) after 0 and 1 were returned in that order"));
+                let fs: Vec<Finding> = out.violations.into_iter().take(4).map(|v| Finding { sig: format!("{}/m_queue_mode_names/{}", prop, v.oracle), replay: Json::obj().with("engine", "m_queue_mode_names").with("message", v.msg.as_str()), v }).collect();
                 rep.add_findings(fs);
             }
             // lazy creation against lock contention: full-speed rounds only (no schedule point can sit between
